@@ -102,7 +102,8 @@ def affIO {F : Type} [Zero F] [One F] (io : Codec' F) : Codec' (Aff F) where
     match s.splitOn "/" with
     | [x, y] => do let x ← io.parse x; let y ← io.parse y; pure ⟨x, y, false⟩
     | _ => none
-  shw p := if p.infinity then "inf" else io.shw p.x ++ "/" ++ io.shw p.y
+  shw p := if p.infinity then (if io.shw p.x == io.shw (0 : F) && io.shw p.y == io.shw (1 : F) then "inf" else "inf-noncanonical:" ++ io.shw p.x ++ "/" ++ io.shw p.y)
+           else io.shw p.x ++ "/" ++ io.shw p.y
 
 def showOpt {T : Type} (f : T → String) : Option T → String
   | some a => f a
